@@ -1367,6 +1367,120 @@ def _desugar_bool_vector(fn: ast.AST) -> int:
     return n
 
 
+def _pure_display(e: ast.AST, stable) -> bool:
+    """A value that may be written out where it is used instead of where the table is built: literals, stable names, and
+    displays / dict(...) of such."""
+    if isinstance(e, ast.Constant):
+        return True
+    if isinstance(e, ast.Name):
+        return stable(e.id)
+    if isinstance(e, ast.UnaryOp) and isinstance(e.op, (ast.USub, ast.UAdd)):
+        return _pure_display(e.operand, stable)
+    if isinstance(e, (ast.Tuple, ast.List)):
+        return all(not isinstance(x, ast.Starred) and _pure_display(x, stable) for x in e.elts)
+    if isinstance(e, ast.Dict):
+        return all(k is not None and _pure_display(k, stable) and _pure_display(v, stable) for k, v in zip(e.keys, e.values))
+    if isinstance(e, ast.Call) and isinstance(e.func, ast.Name) and e.func.id == "dict" and not e.args:
+        return all(k.arg is not None and _pure_display(k.value, stable) for k in e.keywords)
+    return False
+
+
+class _SplatLiteralDict(ast.NodeTransformer):
+    """f(..., **dict(a=1)) / f(..., **{"a": 1}) is f(..., a=1)."""
+    def visit_Call(self, node: ast.Call):
+        self.generic_visit(node)
+        new = []
+        for k in node.keywords:
+            v = k.value
+            if k.arg is None and isinstance(v, ast.Call) and isinstance(v.func, ast.Name) and v.func.id == "dict" and not v.args \
+                    and all(x.arg is not None for x in v.keywords):
+                new += [ast.keyword(arg=x.arg, value=x.value) for x in v.keywords]
+            elif k.arg is None and isinstance(v, ast.Dict) and all(isinstance(x, ast.Constant) and isinstance(x.value, str) and x.value.isidentifier() for x in v.keys):
+                new += [ast.keyword(arg=x.value, value=y) for x, y in zip(v.keys, v.values)]
+            else:
+                new.append(k)
+        node.keywords = new
+        return node
+
+
+def _desugar_literal_table_loops(fn: ast.AST) -> int:
+    """`T = ((a, f, opts), (b, g, opts2), ...)` (a local bound once to a display of equally long rows of literals, stable names and
+    displays of such) whose only uses are `for x, y, z in T: <body>`: the loop is its body once per row, in order."""
+    if not isinstance(fn, (ast.FunctionDef, ast.AsyncFunctionDef)):
+        return 0
+    n = 0
+    stores: Dict[str, int] = {}
+    for x in ast.walk(fn):
+        if isinstance(x, ast.Name) and isinstance(x.ctx, (ast.Store, ast.Del)):
+            stores[x.id] = stores.get(x.id, 0) + 1
+    params = {a.arg for a in fn.args.args + fn.args.kwonlyargs + fn.args.posonlyargs}
+    local_defs = {x.name for x in ast.walk(fn) if isinstance(x, (ast.FunctionDef, ast.AsyncFunctionDef)) and x is not fn}
+
+    def stable(name: str) -> bool:
+        if name in local_defs:
+            return False
+        return not stores.get(name) if (name in params or name not in stores) else False
+    cands = [st for st in ast.walk(fn) if isinstance(st, ast.Assign) and len(st.targets) == 1 and isinstance(st.targets[0], ast.Name)
+             and isinstance(st.value, (ast.Tuple, ast.List)) and 2 <= len(st.value.elts) <= 16
+             and all(isinstance(r, (ast.Tuple, ast.List)) and r.elts and not any(isinstance(x, ast.Starred) for x in r.elts) for r in st.value.elts)]
+    for d in cands:
+        name = d.targets[0].id
+        rows = d.value.elts
+        width = len(rows[0].elts)
+        if stores.get(name) != 1 or name in params or any(len(r.elts) != width for r in rows):
+            continue
+        if not all(_pure_display(x, stable) for r in rows for x in r.elts):
+            continue
+        loads = [x for x in ast.walk(fn) if isinstance(x, ast.Name) and x.id == name and isinstance(x.ctx, ast.Load)]
+        uses = []
+
+        def scan(block):
+            for st in block:
+                if isinstance(st, ast.For) and not st.orelse and isinstance(st.iter, ast.Name) and st.iter.id == name \
+                        and isinstance(st.target, (ast.Tuple, ast.List)) and len(st.target.elts) == width and all(isinstance(e, ast.Name) for e in st.target.elts):
+                    uses.append((block, st))
+                for fld in ("body", "orelse", "finalbody"):
+                    sub = getattr(st, fld, None)
+                    if isinstance(sub, list) and sub and isinstance(sub[0], ast.stmt) and not isinstance(st, (ast.FunctionDef, ast.AsyncFunctionDef, ast.ClassDef)):
+                        scan(sub)
+        scan(fn.body)
+        if not uses or len(uses) != len(loads):
+            continue
+        okay = True
+        for block, st in uses:
+            tnames = {e.id for e in st.target.elts}
+            if any(isinstance(x, (ast.Break, ast.Continue, ast.Return, ast.Yield, ast.YieldFrom, ast.Lambda, ast.FunctionDef)) for b in st.body for x in ast.walk(b)) \
+                    or len(st.body) > 6:
+                okay = False
+            if any(isinstance(x, ast.Name) and x.id in tnames and isinstance(x.ctx, (ast.Store, ast.Del)) for b in st.body for x in ast.walk(b)):
+                okay = False
+            # the loop variables must be dead after the loop
+            for tn in tnames:
+                inside = {id(x) for b in st.body for x in ast.walk(b)} | {id(x) for x in ast.walk(st.target)}
+                if any(isinstance(x, ast.Name) and x.id == tn and id(x) not in inside for x in ast.walk(fn)):
+                    okay = False
+            # names the rows mention must not be rebound by the loop body
+            mentioned = {x.id for r in rows for x in ast.walk(r) if isinstance(x, ast.Name)}
+            if any(isinstance(x, ast.Name) and x.id in mentioned and isinstance(x.ctx, (ast.Store, ast.Del)) for b in st.body for x in ast.walk(b)):
+                okay = False
+        if not okay:
+            continue
+        for block, st in uses:
+            new = []
+            for r in rows:
+                m = {t.id: e for t, e in zip(st.target.elts, r.elts)}
+                for b in st.body:
+                    nb = _SubstNames(m).visit(copy.deepcopy(b))
+                    nb = _SplatLiteralDict().visit(nb)
+                    new.append(nb)
+            j = block.index(st)
+            block[j:j + 1] = new
+        n += 1
+    if n:
+        _FoldTests().visit(fn)
+    return n
+
+
 def desugar_match(trees: Dict[str, ast.Module]) -> int:
     n = 0
     for tree in trees.values():
@@ -1382,6 +1496,9 @@ def desugar_match(trees: Dict[str, ast.Module]) -> int:
             for fn in [x for x in ast.walk(tree) if isinstance(x, (ast.FunctionDef, ast.AsyncFunctionDef))]:
                 if any(isinstance(x, ast.Dict) and x.keys for x in ast.walk(fn)) and _desugar_literal_dict_loops(fn):
                     ast.fix_missing_locations(tree)
+        for fn in [x for x in ast.walk(tree) if isinstance(x, (ast.FunctionDef, ast.AsyncFunctionDef))]:
+            if _desugar_literal_table_loops(fn):
+                ast.fix_missing_locations(tree)
         if any(isinstance(x, ast.Attribute) and x.attr == "count" and isinstance(x.value, ast.Name) and x.value.id == "itertools" for x in ast.walk(tree)):
             for fn in [x for x in ast.walk(tree) if isinstance(x, (ast.FunctionDef, ast.AsyncFunctionDef))]:
                 if _desugar_count_iterators(fn):
@@ -1460,6 +1577,17 @@ def desugar_namedtuples(trees: Dict[str, ast.Module], baseline: Optional[Set[str
                         and isinstance(st.value.func, ast.Name) and st.value.func.id in records and stores.get(st.targets[0].id) == 1 \
                         and st.targets[0].id not in {a.arg for a in fn.args.args + fn.args.kwonlyargs}:
                     typed[st.targets[0].id] = st.value.func.id
+            grew = True
+            while grew:
+                grew = False
+                for st in ast.walk(fn):
+                    # v2 = v._replace(field=...): a record of the same type
+                    if isinstance(st, ast.Assign) and len(st.targets) == 1 and isinstance(st.targets[0], ast.Name) and isinstance(st.value, ast.Call) \
+                            and isinstance(st.value.func, ast.Attribute) and st.value.func.attr == "_replace" and isinstance(st.value.func.value, ast.Name) \
+                            and st.value.func.value.id in typed and stores.get(st.targets[0].id) == 1 and st.targets[0].id not in typed \
+                            and st.targets[0].id not in {a.arg for a in fn.args.args + fn.args.kwonlyargs}:
+                        typed[st.targets[0].id] = typed[st.value.func.value.id]
+                        grew = True
 
             class Fix(ast.NodeTransformer):
                 def visit_Attribute(self, node):
@@ -1481,10 +1609,85 @@ def desugar_namedtuples(trees: Dict[str, ast.Module], baseline: Optional[Set[str
                         if t is not None:
                             t._record = node.func.id
                             return t
+                    if isinstance(node.func, ast.Attribute) and node.func.attr == "_replace" and isinstance(node.func.value, ast.Name) \
+                            and node.func.value.id in typed and not node.args and all(k.arg is not None for k in node.keywords):
+                        flds = records[typed[node.func.value.id]][0]
+                        new = {k.arg: k.value for k in node.keywords}
+                        if set(new) <= set(flds):
+                            t = ast.Tuple(elts=[new[f_] if f_ in new else ast.Subscript(value=ast.Name(id=node.func.value.id, ctx=ast.Load()),
+                                                                                       slice=ast.Constant(value=i), ctx=ast.Load())
+                                                for i, f_ in enumerate(flds)], ctx=ast.Load())
+                            t._record = typed[node.func.value.id]
+                            return ast.copy_location(t, node)
                     return node
             Fix().visit(fn)
+            _propagate_record_elements(fn)
         ast.fix_missing_locations(tree)
     return sorted(records)
+
+
+def _propagate_record_elements(fn: ast.AST) -> int:
+    """`v = (a, e2, c)` built from a record constructor, v bound once: `v[i]` with a literal index is the i-th element.  An element
+    that is not a name bound once is first given a name of its own where the record is built (evaluated once, there, as before)."""
+    n = 0
+    stores: Dict[str, int] = {}
+    for x in ast.walk(fn):
+        if isinstance(x, ast.Name) and isinstance(x.ctx, (ast.Store, ast.Del)):
+            stores[x.id] = stores.get(x.id, 0) + 1
+    params = {a.arg for a in fn.args.args + fn.args.kwonlyargs + fn.args.posonlyargs}
+
+    def blocks(node):
+        for fld in ("body", "orelse", "finalbody"):
+            sub = getattr(node, fld, None)
+            if isinstance(sub, list) and sub and isinstance(sub[0], ast.stmt):
+                yield sub
+                for st in sub:
+                    if not isinstance(st, (ast.FunctionDef, ast.AsyncFunctionDef, ast.ClassDef)):
+                        yield from blocks(st)
+    for block in list(blocks(fn)):
+        i = 0
+        while i < len(block):
+            st = block[i]
+            i += 1
+            if not (isinstance(st, ast.Assign) and len(st.targets) == 1 and isinstance(st.targets[0], ast.Name) and isinstance(st.value, ast.Tuple)
+                    and getattr(st.value, "_record", None) and stores.get(st.targets[0].id) == 1 and st.targets[0].id not in params):
+                continue
+            v = st.targets[0].id
+            # every use of v must be v[<literal index>] or v[:k] handled elsewhere; only literal indices are rewritten
+            pre = []
+            for k, e in enumerate(st.value.elts):
+                stable = isinstance(e, ast.Constant) or (isinstance(e, ast.Name) and ((e.id in params and not stores.get(e.id)) or (e.id not in params and stores.get(e.id) == 1)))
+                if not stable:
+                    tmp = f"_{v}__{k}"
+                    pre.append(ast.copy_location(ast.Assign(targets=[ast.Name(id=tmp, ctx=ast.Store())], value=e), st))
+                    stores[tmp] = 1
+                    st.value.elts[k] = ast.copy_location(ast.Name(id=tmp, ctx=ast.Load()), e)
+            if pre:
+                j = block.index(st)
+                block[j:j] = pre
+                i += len(pre)
+            elts = list(st.value.elts)
+
+            class Sub(ast.NodeTransformer):
+                def visit_Subscript(self, node):
+                    self.generic_visit(node)
+                    if isinstance(node.ctx, ast.Load) and isinstance(node.value, ast.Name) and node.value.id == v and isinstance(node.slice, ast.Constant) \
+                            and isinstance(node.slice.value, int) and not isinstance(node.slice.value, bool) and -len(elts) <= node.slice.value < len(elts):
+                        return ast.copy_location(copy.deepcopy(elts[node.slice.value]), node)
+                    return node
+            for b in ast.walk(fn):
+                for fld in ("body", "orelse", "finalbody"):
+                    sub = getattr(b, fld, None)
+                    if isinstance(sub, list) and sub and isinstance(sub[0], ast.stmt):
+                        for k2, s2 in enumerate(sub):
+                            if s2 is not st and not isinstance(s2, (ast.FunctionDef, ast.AsyncFunctionDef, ast.ClassDef, ast.If, ast.For, ast.While, ast.With, ast.Try)):
+                                sub[k2] = Sub().visit(s2)
+                            elif isinstance(s2, (ast.If, ast.While)):
+                                s2.test = Sub().visit(s2.test)
+                            elif isinstance(s2, ast.For):
+                                s2.iter = Sub().visit(s2.iter)
+            n += 1
+    return n
 
 
 def _desugar_methodcaller(fn: ast.AST) -> int:
